@@ -483,7 +483,7 @@ func vncRunOne(in vncPathIn, outFn, scratch string) (err error) {
 				a.Res = "noconn"
 			}
 		case "Extend":
-			if k := r.cfg.Unit * a.N; r.cfg.Free >= 1 && k <= 400 {
+			if k := r.cfg.Unit * a.N; r.cfg.Free >= 1 && k <= 600 {
 				// blocks arrive one by one, a few ms apart
 				for i := 1; i <= k; i++ {
 					if r.cfg.Free == 2 && i%7 == 0 {
